@@ -33,6 +33,7 @@ type StreamObj struct {
 	blocking  bool
 	sizes     []*Term       // symbolic byte length of each message (1..4096), created on demand
 	limiters  []*readerWrap // io.LimitReader wrappers decoders read this stream through
+	frameOpen []bool        // gobwas: frame i is a non-final fragment of its message
 	frameEnds []int         // gobwas frame transport: message index at which each sent frame ends
 	mistyped  map[int]bool  // message i is a complete JSON value whose "jsonrpc" member has the wrong type (verifapi.WriteMistyped)
 }
